@@ -187,7 +187,9 @@ class Ctx:
 
     def violation(self, kind, witness=None, **extra):
         """Record a refuting observation for the current case."""
-        w = {"kind": kind, "case": self.current_case}
+        w = {"kind": kind, "case": self.current_case,
+             # ambient conditions of this process that a replay has to reproduce
+             "ambient": {"PYTHONHASHSEED": os.environ.get("PYTHONHASHSEED", "")}}
         if witness is not None:
             w["witness"] = jsonable(witness)
         w.update(jsonable(extra))
